@@ -143,7 +143,7 @@ Definition src2_authn_response_init (status_response_init : pyval -> pyval) (v_s
    | BErr => PErr
    end)))))))))))).
 
-(* saml2/client_base.py:Base.__init__, lines 142-203 *)
+(* saml2/client_base.py:Base.__init__, lines 150-211 *)
 Definition src2_base_init (entity_init : pyval -> pyval) (population : pyval -> pyval) (lock : pyval) (cfg_getattr : pyval -> pyval -> pyval -> pyval) (v_self : pyval) (v_config : pyval) (v_identity_cache : pyval) (v_state_cache : pyval) (v_virtual_organization : pyval) (v_config_file : pyval) (v_msg_cb : pyval) : pyval :=
   let v_attribute_defaults := PErr in
   let v_val_config := PErr in
